@@ -65,6 +65,8 @@ pub mod core;
 
 pub mod errors;
 pub mod sys;
+#[cfg(rivia_verif)]
+pub mod verif;
 
 /// All essential symbols in a simple consumable way
 ///
